@@ -629,6 +629,11 @@ class ExtLib:
 
     c_numpy_asarray = c_numpy_array
 
+    def c_numpy_stack(self, a, k, n, ms):
+        if k.get("axis", 0) != 0:
+            raise Unsupported("np.stack along a non-leading axis")
+        return self.c_numpy_array([list(a[0])], {}, n, ms)
+
     def c_numpy_flipud(self, a, k, n, ms):
         v = a[0]
         f = arr_valfn(v)
